@@ -35,6 +35,9 @@ from .types import CgiOption, CgiOptionChoice, OptionUsage
 
 CgiChoiceType = Union[tuple[str, str], str, None]
 
+# integer options are durations, counts or box fields: nothing legitimate needs more than 32 bits
+MAX_INT_OPTION_VALUE = 0x7FFFFFFF
+
 @dataclass(slots=True, frozen=True)
 class DashOption:
     usage: OptionUsage
@@ -187,7 +190,10 @@ class DashOption:
     def int_or_none_from_string(value: str) -> int | None:
         if value in {None, '', 'none'}:
             return None
-        return int(value, 10)
+        rv = int(value, 10)
+        if abs(rv) > MAX_INT_OPTION_VALUE:
+            raise ValueError(f'integer value out of range: {value}')
+        return rv
 
     @staticmethod
     def float_or_none_from_string(value: str) -> float | None:
